@@ -128,6 +128,10 @@ func c04ArgLists() [][]interface{} {
 		{nil, []interface{}{1, "a" + mEnd}, 2.5},
 		{-2, 2, strT{"x\n"}},
 		{&x, map[string]int{"k": 1}, panStrT{"pb"}},
+		// operands that print NOTHING, or end in a line feed, first: the empty envelope they leave is taken back,
+		// and what follows (a literal with a marker) is the first thing written after that
+		{"", "a\n", 1},
+		{"line\n", "", []byte{}},
 	}
 }
 
